@@ -265,12 +265,13 @@ class Inliner:
                 while p is not None and g is None:
                     g = f.module.funcs.get(p.qualname + "." + fn.id)
                     p = p.parent
-            if g is None and fn.id.startswith("_") and not fn.id.startswith("__"):
+            if g is None and not fn.id.startswith("__"):
+                # any module-level function of the same module (the list of known functions decides what is put back)
                 g = f.module.funcs.get(fn.id)
                 if g is not None and (g.parent is not None or g.cls is not None):
                     g = None
             return g, None
-        if isinstance(fn, ast.Attribute) and isinstance(fn.value, ast.Name) and fn.attr.startswith("_") and not fn.attr.startswith("__"):
+        if isinstance(fn, ast.Attribute) and isinstance(fn.value, ast.Name) and not fn.attr.startswith("__"):
             owner = f
             while owner is not None and owner.cls is None:
                 owner = owner.parent
